@@ -52,6 +52,80 @@ GUARDS = {
 }
 
 
+NAME_HELPERS = set()  # module-level functions `f(dim)` whose body is the tree-path / plain name choice
+
+
+def _find_name_helpers(tree):
+    """`def f(dim): if dim.treepath: return get_treepath_memo() + dim.name else: return dim.name` (the `else` optional)"""
+    NAME_HELPERS.clear()
+    for fn in tree.body:
+        if not isinstance(fn, ast.FunctionDef) or len(fn.args.args) != 1 or fn.args.vararg or fn.args.kwarg or fn.args.kwonlyargs or fn.decorator_list:
+            continue
+        a = fn.args.args[0].arg
+        body = _strip(fn.body)
+        if not body or not isinstance(body[0], ast.If) or _src(body[0].test) != f"{a}.treepath":
+            continue
+        i = body[0]
+        tail = i.orelse if i.orelse else body[1:]
+        if (len(body) == (1 if i.orelse else 2) and len(i.body) == 1 and _src(i.body[0]) == f"return get_treepath_memo() + {a}.name"
+                and len(tail) == 1 and _src(tail[0]) == f"return {a}.name"):
+            NAME_HELPERS.add(fn.name)
+
+
+def _is_name_choice(stmts, var):
+    """the statements that set `name` for the axis held in `var`: the inline if/else, or a call of a helper"""
+    if len(stmts) != 1:
+        return False
+    st = stmts[0]
+    if isinstance(st, ast.If):
+        return (_src(st.test) == f"{var}.treepath" and len(st.body) == 1 and len(st.orelse) == 1
+                and _src(st.body[0]) == f"name = get_treepath_memo() + {var}.name" and _src(st.orelse[0]) == f"name = {var}.name")
+    if isinstance(st, ast.Assign) and _src(st.targets[0]) == "name" and isinstance(st.value, ast.Call) and isinstance(st.value.func, ast.Name):
+        return st.value.func.id in NAME_HELPERS and [_src(a) for a in st.value.args] == [var] and not st.value.keywords
+    if isinstance(st, ast.Assign) and _src(st.targets[0]) == "name" and isinstance(st.value, ast.IfExp):
+        v = st.value
+        return _src(v.test) == f"{var}.treepath" and _src(v.body) == f"get_treepath_memo() + {var}.name" and _src(v.orelse) == f"{var}.name"
+    return False
+
+
+def _is_cmp_bound(stmts):
+    """`[cls_size = single_memo[name];] if cls_size != obj_size: return <msg>`"""
+    stmts = _strip(stmts)
+    if len(stmts) == 2 and _src(stmts[0]) == "cls_size = single_memo[name]":
+        stmts = stmts[1:]
+        lhs = ("cls_size",)
+    elif len(stmts) == 1:
+        lhs = ("single_memo[name]",)
+    else:
+        return False
+    i = stmts[0]
+    return (isinstance(i, ast.If) and _src(i.test) in [f"{x} != obj_size" for x in lhs] + [f"obj_size != {x}" for x in lhs]
+            and not i.orelse and len(i.body) == 1 and _is_message_return(i.body[0]))
+
+
+def _is_bind_or_cmp(st):
+    """lookup of `name` in `single_memo`: bind when absent, compare when present — as try/except KeyError/else, or
+    as a membership test in either polarity"""
+    if isinstance(st, ast.Try):
+        t = st
+        return (len(t.body) == 1 and _src(t.body[0]) == "cls_size = single_memo[name]"
+                and len(t.handlers) == 1 and _src(t.handlers[0].type) == "KeyError" and len(t.handlers[0].body) == 1
+                and _src(t.handlers[0].body[0]) == "single_memo[name] = obj_size"
+                and len(t.orelse) == 1 and isinstance(t.orelse[0], ast.If) and _src(t.orelse[0].test) in ("cls_size != obj_size", "obj_size != cls_size")
+                and not t.orelse[0].orelse and len(t.orelse[0].body) == 1 and _is_message_return(t.orelse[0].body[0]) and not t.finalbody)
+    if isinstance(st, ast.If) and st.orelse:
+        test = _src(st.test)
+        if test == "name in single_memo":
+            present, absent = st.body, st.orelse
+        elif test in ("name not in single_memo", "not name in single_memo"):
+            present, absent = st.orelse, st.body
+        else:
+            return False
+        absent = _strip(absent)
+        return len(absent) == 1 and _src(absent[0]) == "single_memo[name] = obj_size" and _is_cmp_bound(present)
+    return False
+
+
 def _action(stmts):
     stmts = _strip(stmts)
     if len(stmts) == 1 and isinstance(stmts[0], ast.Pass):
@@ -76,17 +150,8 @@ def _action(stmts):
             return "evalCmp"
     # named: if cls_dim.treepath: name = get_treepath_memo() + cls_dim.name else: name = cls_dim.name
     #        try: cls_size = single_memo[name] except KeyError: single_memo[name] = obj_size else: if cls_size != obj_size: return msg
-    if len(stmts) == 2 and isinstance(stmts[0], ast.If) and isinstance(stmts[1], ast.Try):
-        i, t = stmts
-        ok = (_src(i.test) == "cls_dim.treepath" and len(i.body) == 1 and len(i.orelse) == 1
-              and _src(i.body[0]) == "name = get_treepath_memo() + cls_dim.name" and _src(i.orelse[0]) == "name = cls_dim.name"
-              and len(t.body) == 1 and _src(t.body[0]) == "cls_size = single_memo[name]"
-              and len(t.handlers) == 1 and _src(t.handlers[0].type) == "KeyError" and len(t.handlers[0].body) == 1
-              and _src(t.handlers[0].body[0]) == "single_memo[name] = obj_size"
-              and len(t.orelse) == 1 and isinstance(t.orelse[0], ast.If) and _src(t.orelse[0].test) in ("cls_size != obj_size", "obj_size != cls_size")
-              and not t.orelse[0].orelse and len(t.orelse[0].body) == 1 and _is_message_return(t.orelse[0].body[0]) and not t.finalbody)
-        if ok:
-            return "bindOrCmp"
+    if len(stmts) == 2 and _is_name_choice(stmts[:1], "cls_dim") and _is_bind_or_cmp(stmts[1]):
+        return "bindOrCmp"
     return "unknown"
 
 
@@ -128,6 +193,7 @@ CONDS = {
     "not (broadcastable or prev_broadcastable)": "neitherB",
     "not (prev_broadcastable or broadcastable)": "neitherB",
     "not broadcastable and (not prev_broadcastable)": "neitherB",
+    "not prev_broadcastable and (not broadcastable)": "neitherB",
 }
 
 
@@ -163,16 +229,45 @@ def translate_variadic(tree):
     fn = next((n for n in (cls.body if cls else []) if isinstance(n, ast.FunctionDef) and n.name == "_check_shape"), None)
     if fn is None:
         return [".unknown"], False, "no _check_shape"
-    tries = [n for n in ast.walk(fn) if isinstance(n, ast.Try) and len(n.body) == 1 and _src(n.body[0]).replace("(", "").replace(")", "") == "prev_broadcastable, prev_shape = variadic_memo[name]"]
-    if len(tries) != 1:
-        return [".unknown"], False, "the lookup of the bound multi-axis name was not found"
-    t = tries[0]
-    first = (len(t.handlers) == 1 and _src(t.handlers[0].type) == "KeyError"
-             and [_src(s) for s in _strip(t.handlers[0].body)] == ["variadic_memo[name] = (broadcastable, obj.shape[i:j])", "return ''"])
-    code = _vstmts(t.orelse)
-    # statements following the try inside the same block (none today) would run after it; the enclosing
-    # block must end with the try or with `return ""`
-    return code, bool(first), ""
+    unpack = "prev_broadcastable, prev_shape = variadic_memo[name]"
+    store_first = ["variadic_memo[name] = (broadcastable, obj.shape[i:j])", "return ''"]
+    tries = [n for n in ast.walk(fn) if isinstance(n, ast.Try) and len(n.body) == 1 and _src(n.body[0]).replace("(", "").replace(")", "") == unpack]
+    if len(tries) == 1:
+        t = tries[0]
+        first = (len(t.handlers) == 1 and _src(t.handlers[0].type) == "KeyError"
+                 and [_src(s) for s in _strip(t.handlers[0].body)] == store_first)
+        code = _vstmts(t.orelse)
+        # statements following the try inside the same block (none today) would run after it; the enclosing
+        # block must end with the try or with `return ""`
+        return code, bool(first), ""
+    # the same lookup as a membership test: `if name not in variadic_memo: <store>; return ""` followed by the
+    # unpacking and the statements for the bound case (or `if name in variadic_memo: ... else: <store>; return ""`)
+    for blk in [n for n in ast.walk(fn) if isinstance(n, (ast.If, ast.FunctionDef))]:
+        for seq in ([blk.body, blk.orelse] if isinstance(blk, ast.If) else [blk.body]):
+            seq = _strip(seq)
+            for k, st in enumerate(seq):
+                if not isinstance(st, ast.If):
+                    continue
+                test = _src(st.test)
+                if test in ("name not in variadic_memo", "not name in variadic_memo") and not st.orelse:
+                    first = [_src(s) for s in _strip(st.body)] == store_first
+                    rest = seq[k + 1:]
+                elif test in ("name not in variadic_memo", "not name in variadic_memo") and st.orelse:
+                    first = [_src(s) for s in _strip(st.body)] == store_first
+                    rest = _strip(st.orelse)
+                    if seq[k + 1:]:
+                        return [".unknown"], False, "statements after the membership test"
+                elif test == "name in variadic_memo" and st.orelse:
+                    first = [_src(s) for s in _strip(st.orelse)] == store_first
+                    rest = _strip(st.body)
+                    if seq[k + 1:]:
+                        return [".unknown"], False, "statements after the membership test"
+                else:
+                    continue
+                if not rest or _src(rest[0]).replace("(", "").replace(")", "") != unpack:
+                    return [".unknown"], False, "the bound case does not start by unpacking the stored value"
+                return _vstmts(rest[1:]), bool(first), ""
+    return [".unknown"], False, "the lookup of the bound multi-axis name was not found"
 
 
 # ----------------------------------------------------------------------------- __instancecheck_str__
@@ -184,6 +279,7 @@ def translate_stages(tree):
     if fn is None:
         return ["unknown"]
     out = []
+    helpers = {n.name: n for n in tree.body if isinstance(n, ast.FunctionDef)}
     body = _strip(fn.body)
     i = 0
     while i < len(body):
@@ -203,17 +299,36 @@ def translate_stages(tree):
                 isinstance(n, (ast.Assign, ast.If, ast.Expr)) or True for n in st.body) and any(
                 isinstance(n, ast.Assign) and _src(n.targets[0]) in ("dtype", "(*_, dtype)") for n in ast.walk(st)) and not any(isinstance(n, ast.Return) for n in ast.walk(st)):
             out.append("dtypeName")
+        elif isinstance(st, ast.Assign) and _src(st.targets[0]) == "dtype" and isinstance(st.value, ast.Call) \
+                and isinstance(st.value.func, ast.Name) and st.value.func.id in helpers and [_src(a) for a in st.value.args] == ["obj"] \
+                and not any(isinstance(n, ast.Call) and _src(n.func) in ("set_shape_memo", "get_shape_memo") for n in ast.walk(helpers[st.value.func.id])):
+            out.append("dtypeName")   # the extraction moved into a module-level helper
         elif isinstance(st, ast.If) and _src(st.test) == "cls.dtypes is not _any_dtype":
             rets = [n for n in ast.walk(st) if isinstance(n, ast.Return)]
             guarded = [n for n in ast.walk(st) if isinstance(n, ast.If) and _src(n.test) == "not in_dtypes"]
             ok = bool(rets) and all(_is_message_return(r) for r in rets) and len(guarded) == 1 and not st.orelse
             out.append("dtypeTest" if ok else "unknown")
+        elif isinstance(st, ast.If) and isinstance(st.test, ast.BoolOp) and isinstance(st.test.op, ast.And) and len(st.test.values) == 2 \
+                and _src(st.test.values[0]) == "cls.dtypes is not _any_dtype":
+            # `if cls.dtypes is not _any_dtype and not <matcher>(dtype, cls.dtypes): return <message>`
+            t2 = st.test.values[1]
+            rets = [n for n in ast.walk(st) if isinstance(n, ast.Return)]
+            ok = (isinstance(t2, ast.UnaryOp) and isinstance(t2.op, ast.Not) and isinstance(t2.operand, ast.Call)
+                  and isinstance(t2.operand.func, ast.Name) and t2.operand.func.id in helpers
+                  and sorted(_src(a) for a in t2.operand.args) == ["cls.dtypes", "dtype"]
+                  and bool(rets) and all(_is_message_return(r) for r in rets) and not st.orelse)
+            out.append("dtypeTest" if ok else "unknown")
         elif isinstance(st, ast.Assign) and _src(st.value) == "get_shape_memo()":
             # followed by the four .copy() backups
             baks = body[i + 1:i + 5]
+            nxt = body[i + 1] if i + 1 < len(body) else None
             if len(baks) == 4 and all(isinstance(b, ast.Assign) and _src(b.value).endswith("_memo.copy()") for b in baks):
                 out.append("snapshot")
                 i += 4
+            elif isinstance(nxt, ast.Assign) and isinstance(nxt.value, ast.Tuple) and len(nxt.value.elts) == 4 \
+                    and len({_src(e) for e in nxt.value.elts}) == 4 and all(_src(e).endswith("_memo.copy()") for e in nxt.value.elts):
+                out.append("snapshot")   # one tuple of the four copies
+                i += 1
             else:
                 out.append("unknown")
         elif isinstance(st, ast.Try):
@@ -226,6 +341,11 @@ def translate_stages(tree):
             ok = (len(st.body) == 1 and _src(st.body[0]) == "return check" and len(st.orelse) == 2
                   and _src(st.orelse[0]).startswith("set_shape_memo(") and _src(st.orelse[1]) == "return check")
             out.append("finish" if ok else "unknown")
+        elif isinstance(st, ast.If) and _src(st.test) == "check != ''" and i + 2 == len(body) and _src(body[i + 1]) == "return check":
+            # `if check != "": set_shape_memo(<backups>)` followed by `return check`
+            ok = len(st.body) == 1 and _src(st.body[0]).startswith("set_shape_memo(") and not st.orelse
+            out.append("finish" if ok else "unknown")
+            i += 1
         else:
             out.append("unknown")
         i += 1
@@ -235,6 +355,7 @@ def translate_stages(tree):
 def run():
     with open(os.path.join(REPO, "jaxtyping", "_array_types.py")) as fh:
         tree = ast.parse(fh.read())
+    _find_name_helpers(tree)
     chain, note1 = translate_check_dims(tree)
     code, first, note2 = translate_variadic(tree)
     stages = translate_stages(tree)
